@@ -1,10 +1,14 @@
 package main
 
 import (
+	"sync"
+
 	"go.uber.org/zap"
 )
 
 type SelfLearnRoute struct {
+	// one table is shared by the message loops of all listeners of a service
+	sync.Mutex
 	// map between destination ip/host and local server transport
 	route map[string]ServerTransport
 }
@@ -14,6 +18,8 @@ func NewSelfLearnRoute() *SelfLearnRoute {
 }
 
 func (sl *SelfLearnRoute) AddRoute(ip string, transport ServerTransport) {
+	sl.Lock()
+	defer sl.Unlock()
 	vt("sl.begin", sl, "w")
 	defer vt("sl.end", sl, "w")
 	old, ok := sl.route[ip]
@@ -31,6 +37,8 @@ func (sl *SelfLearnRoute) isSameTransport(transport1 ServerTransport, transport2
 }
 
 func (sl *SelfLearnRoute) GetRoute(ip string) (ServerTransport, bool) {
+	sl.Lock()
+	defer sl.Unlock()
 	vt("sl.begin", sl, "r")
 	defer vt("sl.end", sl, "r")
 	transport, ok := sl.route[ip]
